@@ -42,6 +42,52 @@ def run(rep, tier, seed, replay=None):
         return out
 
     vlib.correspond(rep, netprops.corpus("C09") + [v.line for v in valids], oracle=oracle, trivial=netprops.trivial, tag="c09")
+    # ---- the same exchanges through the definition-driven generic query (games::query): with the port omitted every
+    # request goes to the game's default port from the definitions table, with a port given to that port — the variants of an
+    # auto-detecting game included; same request bytes as on the protocol's own entry
+    from props import dispatch_cases
+    dlines, dmeta = [], {}
+    per_fam = {}
+    for v in valids:
+        if v.fam not in dispatch_cases.ARMS or per_fam.get(v.fam, 0) >= (60 if tier == "quick" else 1500):
+            continue
+        c = v.case()
+        game, default, _ = dispatch_cases.ARMS[v.fam](c.args)
+        if game is None:
+            continue
+        fd = netprops.FAMILIES[v.fam]
+        # half of the cases with the port omitted (the script does not depend on the port), half with the case's own port
+        # (the Java handshake names the port: there the port is omitted only when the case's own port is the default)
+        if v.fam in ("mcjava", "mcauto"):
+            omit = int(c.args[fd["port"]]) == default
+        else:
+            omit = per_fam.get(v.fam, 0) % 2 == 0
+        if omit:
+            c.args[fd["port"]] = str(default)
+        line = dispatch_cases.retarget(v.fam, c, v.id + "dp", k=0 if omit else 1)
+        if line is None:
+            continue
+        per_fam[v.fam] = per_fam.get(v.fam, 0) + 1
+        dlines.append(line)
+        dmeta[v.id + "dp"] = (v, default if omit else int(c.args[fd["port"]]), omit)
+
+    def doracle(case, impl, model, panic):
+        out = netprops.crash_oracle(case, impl, model, panic)
+        if "@WRONGIP" in impl:
+            out.append(("wrong-ip", "a socket operation addressed an IP other than the caller's"))
+        m = dmeta.get(case.split(" ", 1)[0])
+        if m is None or out:
+            return out
+        v, port, omit = m
+        sends = vlib.sends_of(impl)
+        rep.count("generic-path:" + ("port-omitted" if omit else "port-given"))
+        if [d for (_, _, d, _) in sends] != v.sent():
+            out.append(("request-bytes:generic:" + v.fam, f"sent {[d for (_, _, d, _) in sends]} expected {v.sent()}"))
+        if any(p != port for (_, p, _, _) in sends):
+            out.append(("request-port:generic:" + v.fam, f"port {'omitted' if omit else 'given'}: a request went to a port other than {port}: {[p for (_, p, _, _) in sends]}"))
+        return out
+
+    vlib.correspond(rep, dlines, oracle=doracle, trivial=netprops.trivial, tag="c09")
     hostile = []
     rnd.shuffle(valids)
     for k, v in enumerate(valids[: (300 if tier == "quick" else 5000) * len(netprops.FAMILIES)]):
